@@ -149,6 +149,12 @@ type c01Runner struct {
 }
 
 func c01Run(c *core.Ctx) {
+	// the cheap families multi-table and commit-swap-failure go first: a budget that runs out cuts the deep enumerations below, and says so
+	c01MultiTableRun(c)
+	c01SwapFailRun(c)
+	if c01FamilyOff("base") {
+		return
+	}
 	lim := c01LimitsOf(c.Thorough())
 	al := c01Alphabet(c.Thorough())
 	r := &c01Runner{c: c, dir: core.Scratch("c01"), cliDir: core.Scratch("c01cli"), states: map[string]struct{}{}}
@@ -738,7 +744,7 @@ func c01Cli(c *core.Ctx, dir string, k c01Case) {
 }
 
 func c01Replay(c *core.Ctx, payload json.RawMessage) {
-	if c01AttrReplay(c, payload) || c01NestedReplay(c, payload) || c01InterruptReplay(c, payload) || c01CommitCancelReplay(c, payload) {
+	if c01AttrReplay(c, payload) || c01NestedReplay(c, payload) || c01InterruptReplay(c, payload) || c01CommitCancelReplay(c, payload) || c01MultiTableReplay(c, payload) || c01SwapFailReplay(c, payload) {
 		return
 	}
 	var k c01Case
